@@ -952,11 +952,13 @@ theorem dispatch_entAdd_proj (w : Disp.W) (p : Nat) (e : List Nat) (ctr : Nat) (
   simp [Disp.step, Disp.processEntAdd, hc, Disp.bump, Disp.setPeer, Disp.sendN]
 
 theorem dispatch_entRem_proj (w : Disp.W) (p : Nat) (e : List Nat) (ctr : Nat) (ack : Bool)
-    (hc : Disp.connected w p = true) :
+    (hc : Disp.connected w p = true) (h0 : e ≠ [0]) :
     let w' := if Disp.hasEnt w p e then Disp.removeEnt w p e else w
     ((Disp.step w (.entRem p e ctr ack)).1.peers p).feats = (w'.peers p).feats ∧
     (Disp.step w (.entRem p e ctr ack)).1.subs = w'.subs ∧ (Disp.step w (.entRem p e ctr ack)).1.binds = w'.binds := by
-  simp only [Disp.step, Disp.processEntRem, hc, Bool.not_true, Bool.false_eq_true, if_false]
+  -- (`Disp.processEntRem` skips a removal entry for [0], as the code does: `Disp.remGo`)
+  have hgo : Disp.remGo w p e = Disp.hasEnt w p e := by simp [Disp.remGo, h0]
+  simp only [Disp.step, Disp.processEntRem, hc, Bool.not_true, Bool.false_eq_true, if_false, hgo]
   refine ⟨?_, rfl, rfl⟩
   simp [Disp.bump, Disp.sendN]
 
